@@ -5,7 +5,8 @@ per-location lifecycle projection of the real event log), as `rawhist` (the same
 list in program order, temporaries named canonically: also the ORDER of the events across locations must
 agree) and as `mon` (the property: verdict of the run-time monitor on the real log against `wf 1 alive 0`
 + self-operation identities).  Prefixes o / a: the variant-like and the pair/tuple families.
-`pcopy` / `pown`: one copy/move construction or assignment with an element type that has no observable destructor."""
+`pcopy` / `pown`: one copy/move construction or assignment with an element type that has no observable destructor.
+`bhist` / `bmon`: bulk histories that walk the element count over the limits of size_type (coq/C03/ModelSize.v)."""
 import itertools
 
 ID = "C03"
@@ -43,7 +44,11 @@ RULE = ("a case = a whole operation history on two objects of one family, from t
         "uhist / umon: uninitialized_copy / _move / _fill of 0..6 elements whose constructor throws at every position (or never), incl. the "
         "returned iterator; every case runs in two builds: with exceptions (main) and with -fno-exceptions (noexc: the other branch of "
         "the library's __cpp_exceptions splits; the throwing cases are skipped there); "
-        "non-trivial = distinct history whose log contains at least one move/copy between two locations")
+        "bhist / bmon: the stored element count around the limits of size_type = smallest_size_t<Capacity>: static_vector / inplace_vector of a copy+move, a copy-only "
+        "instrumented element and of int at capacities 254, 255, 256, 300, 65536, 70000, stack / static_set / flat_set at 300 and 70000; bulk operations (k appends, k pops, clear, "
+        "erase range, resize, scoped copy / moved copy, copy / move assignment, swap); fixed walks over every limit in {255, 256, 257, 65535, 65536, 65537, Capacity - 1, Capacity} "
+        "(quick: all at capacities <= 300, the 65536 walk of sv / iv / the adapters at the large capacities) + random walks over the limits; "
+        "non-trivial = distinct history whose log contains at least one move/copy between two locations (bhist / bmon: that reaches 255 elements)")
 TRUSTED_BASE = ["reference leg: the constant verdict `wf 1 alive 0 [st 1] self 1...`; its domain (validity of the history) is decided by "
                 "replaying the history on libstdc++ std::vector<int> (sets: sorted std::vector) with the documented preconditions; "
                 "variant-like: an empty function is not invoked",
@@ -593,15 +598,15 @@ def gen_big(tier, rng):
                 # ---- fixed walks: up to each limit in one bulk step, over it one element at a time, back below it, a copy and a
                 # moved copy at the limit, the destructors with that many elements alive
                 for n in lims:
-                    if large and quick and not (n == 65536 and ((fl == "cm" and (cap == 70000 or kind == "sv")) or (fl == "i" and cap == 70000))):
+                    if large and quick and not (n == 65536 and ((fl == "cm" and (cap == 70000 or kind in ("sv", "iv"))) or (fl == "i" and cap == 70000))):
                         continue
                     if n < 2:
                         continue
                     down = (["pop 0 1", "pop 0 1"] if "pop" in has else [f"err 0 {n - 1} {n}", "err 0 0 1"])
                     walk = [f"fil 0 {n - 1} 3", f"fil 0 1 {n + 7}"] + ([f"fil 0 1 {n + 9}"] if n < cap else []) + down
                     out += big_both(fam, cap, walk + ["cpc 0", "mvc 0"])
-                    if large and quick:
-                        continue
+                    if large and (quick or rng.random() < 0.6):
+                        continue           # thorough: a sample of the secondary walks at the large capacities (0.2 s per line in the driver)
                     out += big_both(fam, cap, [f"fil 0 {n} 3", "cpa 1", "mva 1"] + (["pop 1 1"] if "pop" in has else ["err 1 0 1"]) + ["mva 0"])
                     out += big_both(fam, cap, [f"fil 1 {n} 5"])          # only the destructor sees the count
                     if "clr" in has:
@@ -615,7 +620,7 @@ def gen_big(tier, rng):
                     # one element too many / one pop too many: the precondition fires exactly there
                     out += big_both(fam, cap, [f"fil 0 {cap} 3", "fil 0 1 1"] if kind != "ss" else [f"fil 0 {cap} 3", "fil 0 1 99999", "mvc 0"])
                 # ---- random walks over the limits
-                k = ((1 if rng.random() < 0.1 else 0) if quick else 12) if large else (6 if quick else 120)
+                k = ((1 if rng.random() < 0.1 else 0) if quick else 5) if large else (6 if quick else 120)
                 for _ in range(k):
                     out += big_both(fam, cap, big_history(kind, fl, cap, rng, rng.randint(3, 5 if large else 9), invalid=rng.random() < 0.1))
     return out
